@@ -28,6 +28,14 @@ var epNames = []string{"PlainNasDecode", "GmmMessageDecode", "GsmMessageDecode"}
 
 func decode3(b []byte, ep int) (*nas.Message, error) {
 	m := nas.NewMessage()
+	if h := core.HashBytes(0x12, b); h&3 == 0 && len(b) > 1 {
+		// a quarter of the receivers carry a security header recorded by their caller,
+		// half of those the one octet 2 of this input names
+		m.SecurityHeader = nas.SecurityHeader{ProtocolDiscriminator: 0x7e, SecurityHeaderType: uint8(h>>8) % 5, MessageAuthenticationCode: uint32(h >> 16), SequenceNumber: uint8(h >> 48)}
+		if h&4 == 0 {
+			m.SecurityHeaderType = b[1] & 0x0f
+		}
+	}
 	in := b
 	var err error
 	switch ep {
